@@ -22,8 +22,8 @@ from lib.common import enc_list, dec_list
 
 DBS = {11: "DB1", 12: "DB2"}
 SCHEMAS = {21: "S1", 22: "S2", 23: "sq"}
-OBJS = {31: "T1", 32: "T2", 33: "T3", 34: "T4", 35: "T5", 38: "tq"}
-PKOBJS = {36: "T6", 37: "T7"}   # tables declared with a PRIMARY KEY live under their own names: only CREATE [OR REPLACE], DROP, COMMENT, ADD COLUMN touch them
+OBJS = {31: "T1", 32: "T2", 33: "T3", 34: "T4", 35: "T5", 38: "tq", 40: "XFS_T"}   # XFS_T / NFS_K: user names that look like the internal `_fs_` prefix
+PKOBJS = {36: "T6", 37: "T7", 39: "NFS_K"}   # tables declared with a PRIMARY KEY live under their own names: only CREATE [OR REPLACE], DROP, COMMENT, ADD COLUMN touch them
 COLS = {41: "A", 42: "B", 43: "C", 44: "D", 45: "E", 46: "F", 47: "cq"}
 QUOTED = {23, 38, 47}   # lower-case names: created and referenced in double quotes only, reported exactly as written
 COMMENT_TEXT = {**{i: f"c{i}" for i in range(1, 10)}, 10: "", 11: "  "}   # incl. the empty and a whitespace-only comment
